@@ -353,7 +353,7 @@ fn grid(n: u32, base: u64) -> Vec<AcceptCase> {
 }
 
 pub fn run_all(ctx: &mut Ctx, replay: Option<&Path>) {
-    ctx.rule("acceptance: case = (f(current), f(candidate), T, N seeds) on a prepared stack [.., {current}, {candidate}] (candidate on top, as the SA template produces it, with 0-2 populations below); every trial: exactly one population replaces the two, holding exactly the current or the candidate individual; candidate <= current => accepted for every seed; worse by delta => acceptance frequency within 6 sigma of exp(-delta/T), never when delta/T > 745, always when delta/T < 1e-17; non-trivial = cells with 0.01 < p < 0.99 (they separate the rule from its inverse and from always/never); plus monotonicity in T, GeometricCooling (T_after == T_before * alpha bit-exact per execution, alpha outside [0,1) rejected) and malformed stacks; distinct by case");
+    ctx.rule("acceptance: case = (f(current), f(candidate), T, N seeds) on a prepared stack [.., {current}, {candidate}] (candidate on top, as the SA template produces it, with 0-2 populations below); every trial: exactly one population replaces the two, holding exactly the current or the candidate individual; candidate <= current => accepted for every seed, at every temperature incl. exactly 0 (reached by cooling from a start temperature of 1) and also while no generator is reachable in the state (that decision needs no draw); worse by delta => acceptance frequency within 6 sigma of exp(-delta/T), never when delta/T > 745, always when delta/T < 1e-17; non-trivial = cells with 0.01 < p < 0.99 (they separate the rule from its inverse and from always/never); plus monotonicity in T, GeometricCooling (T_after == T_before * alpha bit-exact per execution, alpha outside [0,1) rejected) and malformed stacks; distinct by case");
     ctx.assume("frequencies: fixed sample size N per cell, 6-sigma band; smaller deviations are invisible");
     let a = AcceptCheck;
     let m = MiscCheck;
